@@ -3,6 +3,10 @@
    pgpy/pgp.py  PGPKey.new / add_uid / del_uid / add_subkey / bind / certify / revoke / revoker / protect / unlock /
                 pubkey / __copy__ / parse+__bytearray__, the KeyAction decorator (pgpy/decorators.py), PGPKey.get_uid (exact match of a field, first match), PGPUID.__or__ with
                 SorteDeque.resort, PGPUID.selfsig / is_primary, PGPKey.expires_at / revocation_signatures.
+   PGPUID.selfsig is KeyStruct.selfsig: after repair 812bc0f the newest self-CERTIFICATION (0x10-0x13 issued by the key); a
+   certification revocation or an attestation by the key no longer hides it (selfsig_old / effective_old / key_expiry_old = the rule before).
+   PGPKey.unlock after repair e967622 touches only protected components; in the scope below every component of a protected key
+   is protected (subkeys are added to unprotected keys only, protect() covers all), so the lock-state bookkeeping is unchanged.
 
    Signatures are symbolic: `sign` records who signed and the digest term (subject + hashed fields) that
    PGPSignature.hashdata would feed to the hash; `verifies` recomputes that term for the component the signature
@@ -76,6 +80,7 @@ Inductive op :=
 | OCertify (by_ k : nat) (isuid : bool) (c : list Z) (exp : option bool) (t : Z)
 | OCertifyKey (by_ k : nat) (exp : option bool) (t : Z)      (* key |= other.certify(key, exportable=...): a direct-key signature *)
 | ORevokeUid (k : nat) (isuid : bool) (c : list Z) (t : Z)
+| OAttest (k : nat) (isuid : bool) (c : list Z) (t : Z)       (* uid |= key.certify(uid, SignatureType.Attestation, attested_certifications=[]) *)
 | OAddSubkey (k : nat) (label : Z) (cansign : bool) (flags : Z) (t : Z)
 | ORevokeSubkey (k : nat) (label : Z) (t : Z)
 | ORevokeKey (k : nat) (t : Z)
@@ -211,6 +216,18 @@ Definition apply (w : world) (o : op) : world :=
         else ob
       | None => ob
       end)
+  | OAttest i isuid c t =>
+    (* an Attestation Key Signature (0x16) by the key on its own identity: certify's KeyAction (Certify usage), no key flags,
+       preferences or Features (those are added for 0x10-0x13 and 0x30 only); the attested list is not an attribute the model tracks *)
+    upd w i (fun ob =>
+      let k := o_key ob in
+      match find_uid isuid c (p_uids k) with
+      | Some j =>
+        if certify_ok ob then
+          set_key ob (attach_uid_sig k j (plain (sign (p_label k) T_ATTESTATION t None false no_info (OnUid (p_label k) isuid c))))
+        else ob
+      | None => ob
+      end)
   | OAddSubkey i label cansign flags t =>
     upd w i (fun ob =>
       let k := o_key ob in
@@ -290,9 +307,20 @@ Definition apply (w : world) (o : op) : world :=
 
 Definition run (ops : list op) : world := fold_left apply ops [].
 
-(* the history before repair d951222 (only the user-id attachment differs) *)
+(* the history before repair d951222 (only the user-id attachment differs; written out for the two self-made attachments the
+   refutations use: since repair 812bc0f a revocation no longer changes the sort key of an identity, a re-certification does) *)
 Definition apply_prefix (w : world) (o : op) : world :=
   match o with
+  | ORecertify i isuid c info primary t =>
+    upd w i (fun ob =>
+      let k := o_key ob in
+      match find_uid isuid c (p_uids k) with
+      | Some j =>
+        if certify_ok ob then
+          set_key ob (attach_uid_sig_prefix k j (plain (sign (p_label k) T_POSITIVE t None primary info (OnUid (p_label k) isuid c))))
+        else ob
+      | None => ob
+      end)
   | ORevokeUid i isuid c t =>
     upd w i (fun ob =>
       let k := o_key ob in
@@ -307,21 +335,27 @@ Definition apply_prefix (w : world) (o : op) : world :=
   end.
 
 (* ---------- observables ---------- *)
-(* flags / preferences / primary mark / expiry of an identity: those of PGPUID.selfsig *)
-Definition effective (k : key) (u : uid) : option (Z * list Z * bool) :=
-  match selfsig (p_label k) u with
+(* flags / preferences / primary mark / expiry of an identity: those of PGPUID.selfsig.  `pick` is the selfsig rule:
+   KeyStruct.selfsig now (repair 812bc0f: newest self-CERTIFICATION), KeyStruct.selfsig_old before it (newest signature of any
+   type issued by the key) *)
+Definition effective_with (pick : Z -> uid -> option sig) (k : key) (u : uid) : option (Z * list Z * bool) :=
+  match pick (p_label k) u with
   | Some s => Some (c_type (s_core s), c_info (s_core s), c_primary (s_core s))
   | None => None
   end.
+Definition effective := effective_with selfsig.
+Definition effective_old := effective_with selfsig_old.
 Definition info_keyexp (info : list Z) : Z := nth 1 info (-1).
 (* PGPKey.expires_at (as an offset from key creation; -1 = None): the last text user id whose selfsig has one *)
-Definition key_expiry (k : key) : Z :=
+Definition key_expiry_with (pick : Z -> uid -> option sig) (k : key) : Z :=
   fold_left (fun acc u => if u_isuid u then
-                            match selfsig (p_label k) u with
+                            match pick (p_label k) u with
                             | Some s => if info_keyexp (c_info (s_core s)) =? -1 then acc else info_keyexp (c_info (s_core s))
                             | None => acc
                             end
                           else acc) (p_uids k) (-1).
+Definition key_expiry := key_expiry_with selfsig.
+Definition key_expiry_old := key_expiry_with selfsig_old.
 (* PGPKey.revocation_signatures of the primary / of a subkey *)
 Definition key_revocations (k : key) : list item :=
   filter (fun it => (c_type (icore it) =? T_KEY_REV) && (c_issuer (icore it) =? p_label k)) (p_sigs k).
